@@ -14,7 +14,7 @@ Lemma inferred_parses_same (R Row : Type) (parse_row : model -> Row -> R) sc row
 Proof. intros H. rewrite (infer_headers_of sc H). reflexivity. Qed.
 
 (* ---- the inferred structure does not depend on cell contents: by type *)
-Lemma content_independent t1 t2 : dt_headers t1 = dt_headers t2 -> sheet_model t1 = sheet_model t2.
+Lemma content_independent (t1 t2 : data_table) : dt_headers t1 = dt_headers t2 -> sheet_model t1 = sheet_model t2.
 Proof. unfold sheet_model. intros ->. reflexivity. Qed.
 
 Lemma sheet_model_of_schema sc rows :
@@ -58,18 +58,22 @@ Fixpoint ex_chain (n : nat) : sty :=
 Lemma ex_chain_wf : wf_schema [(nm 97, ex_chain 4)] = true.
 Proof. vm_compute. reflexivity. Qed.
 
-(* the order facts are about something: a list where the partition moves columns *)
+(* the order facts are about something: a list where the partition moves columns
+   (no annotation contains a period: the same under both behaviours) *)
 Definition ex_mixed : list str := [[98; 46; 120]; [97]; [99; 46; 49]; [98; 46; 121]; [100; 58; 105; 110; 116]].
-Lemma ex_mixed_moves :
-  stable_partition ex_mixed <> ex_mixed /\ prefixes ex_mixed = [[98]; [99]]
-  /\ subs_of [98] ex_mixed = [[120]; [121]] /\ exists m, infer ex_mixed = Ok m.
+Lemma ex_mixed_moves bn :
+  stable_partition bn ex_mixed <> ex_mixed /\ prefixes bn ex_mixed = [[98]; [99]]
+  /\ subs_of bn [98] ex_mixed = [[120]; [121]] /\ exists m, infer_at bn ex_mixed = Ok m.
 Proof.
-  split; [vm_compute; discriminate|]. split; [vm_compute; reflexivity|]. split; [vm_compute; reflexivity|].
-  eexists. vm_compute. reflexivity.
+  destruct bn.
+  - split; [vm_compute; discriminate|]. split; [vm_compute; reflexivity|]. split; [vm_compute; reflexivity|].
+    eexists. vm_compute. reflexivity.
+  - split; [vm_compute; discriminate|]. split; [vm_compute; reflexivity|]. split; [vm_compute; reflexivity|].
+    eexists. vm_compute. reflexivity.
 Qed.
 
-Lemma ex_mixed_class : exists fields d, infer ex_mixed = Ok (TRec fields, d).
-Proof. eexists. eexists. vm_compute. reflexivity. Qed.
+Lemma ex_mixed_class bn : exists fields d, infer_at bn ex_mixed = Ok (TRec fields, d).
+Proof. destruct bn; eexists; eexists; vm_compute; reflexivity. Qed.
 
 (* ---- the default clause at full strength: x:float=1.5 *)
 Definition ex_dot : schema := [(nm 120, lf (LFloat (Some [49; 46; 53])))].
@@ -77,10 +81,36 @@ Definition ex_dot : schema := [(nm 120, lf (LFloat (Some [49; 46; 53])))].
 Lemma ex_dot_full : wf_schema_full ex_dot = true /\ wf_schema ex_dot = false.
 Proof. split; vm_compute; reflexivity. Qed.
 
+(* the headline over the full family, for the behaviour [bn] *)
+Definition headline_full_at (bn : bool) : Prop :=
+  forall sc, wf_schema_full sc = true -> infer_at bn (headers_of sc) = Ok (denote sc).
+
+(* looking for the separator in the field name only (the repaired code): it holds *)
+Lemma headline_full_by_name : headline_full_at true.
+Proof. exact infer_by_name_headers_of_full. Qed.
+
+(* looking for it in the whole header (the code with the defect): refuted by x:float=1.5 *)
+Lemma headline_full_whole_header_refuted : ~ headline_full_at false.
+Proof.
+  intros H. specialize (H ex_dot (proj1 ex_dot_full)). vm_compute in H. discriminate.
+Qed.
+
+(* the two behaviours differ exactly there: x:float=1.5 is one float column with default 1.5
+   for the first, a field named "x:float=1" holding a list for the second *)
+Lemma ex_dot_by_name : infer_at true (headers_of ex_dot) = Ok (TRec [(nm 120, (TFloat, VFloat [49; 46; 53]))], VRec [(nm 120, VFloat [49; 46; 53])]).
+Proof. vm_compute. reflexivity. Qed.
+
+Lemma ex_dot_whole_header :
+  exists t d, infer_at false (headers_of ex_dot) = Ok (TRec [([120; 58; 102; 108; 111; 97; 116; 61; 49], (TList t, d))], VRec [([120; 58; 102; 108; 111; 97; 116; 61; 49], d)]).
+Proof. eexists. eexists. vm_compute. reflexivity. Qed.
+
+(* decided for the tree at hand *)
 Definition headline_full : Prop :=
   forall sc, wf_schema_full sc = true -> infer (headers_of sc) = Ok (denote sc).
 
-Lemma dot_default_refuted : ~ headline_full.
+Lemma dot_default_decided : if inf_nested_by_field_name then headline_full else ~ headline_full.
 Proof.
-  intros H. specialize (H ex_dot (proj1 ex_dot_full)). vm_compute in H. discriminate.
+  unfold headline_full, infer. destruct inf_nested_by_field_name.
+  - exact headline_full_by_name.
+  - exact headline_full_whole_header_refuted.
 Qed.
